@@ -1818,8 +1818,16 @@ func patchCode(context *funcContext) { // {{{
 			pc += int(context.Proto.FunctionPrototypes[opGetArgBx(inst)].NumUpvalues)
 			moven = 0
 			continue
+		case OP_SETLIST:
+			if opGetArgC(inst) == 0 {
+				// the next word is the raw batch number, not an instruction (its opcode
+				// bits read as MOVE and would be merged into a bulk move)
+				pc++
+				moven = 0
+				continue
+			}
 		case OP_SETGLOBAL, OP_SETUPVAL, OP_EQ, OP_LT, OP_LE, OP_TEST,
-			OP_TAILCALL, OP_RETURN, OP_SETLIST, OP_CLOSE:
+			OP_TAILCALL, OP_RETURN, OP_CLOSE:
 			/* nothing to do */
 		case OP_FORPREP, OP_FORLOOP:
 			// the loop writes its control variable R(A+3)
